@@ -9,6 +9,7 @@ import (
 	"bytes"
 	"sort"
 	"strings"
+	"sync"
 
 	dbm "github.com/bytom/bytom/database/leveldb"
 )
@@ -22,6 +23,7 @@ type Op struct {
 
 // Disk implements dbm.DB.
 type Disk struct {
+	mu  sync.Mutex
 	m   map[string][]byte
 	log [][]Op // one entry per write boundary
 	// KeepLog enables boundary recording (needed for snapshots).
@@ -54,6 +56,8 @@ func cp(b []byte) []byte {
 }
 
 func (d *Disk) apply(ops []Op) {
+	d.mu.Lock()
+	defer d.mu.Unlock()
 	if d.Frozen {
 		return
 	}
@@ -86,6 +90,8 @@ func (d *Disk) out(key string, v []byte) []byte {
 }
 
 func (d *Disk) Get(key []byte) []byte {
+	d.mu.Lock()
+	defer d.mu.Unlock()
 	d.Reads++
 	return d.out(string(key), d.m[string(key)])
 }
@@ -98,13 +104,23 @@ func (d *Disk) Print()                    {}
 func (d *Disk) Stats() map[string]string  { return map[string]string{"database.type": "simdisk"} }
 
 // Boundaries returns the number of write boundaries so far.
-func (d *Disk) Boundaries() int { return len(d.log) }
+func (d *Disk) Boundaries() int {
+	d.mu.Lock()
+	defer d.mu.Unlock()
+	return len(d.log)
+}
 
 // Len returns the number of keys.
-func (d *Disk) Len() int { return len(d.m) }
+func (d *Disk) Len() int {
+	d.mu.Lock()
+	defer d.mu.Unlock()
+	return len(d.m)
+}
 
 // SnapshotAt returns a new disk holding exactly the first k write boundaries.
 func (d *Disk) SnapshotAt(k int) *Disk {
+	d.mu.Lock()
+	defer d.mu.Unlock()
 	n := New()
 	for _, ops := range d.log[:k] {
 		for _, o := range ops {
@@ -120,6 +136,8 @@ func (d *Disk) SnapshotAt(k int) *Disk {
 
 // Clone returns an independent copy of the current contents (no log).
 func (d *Disk) Clone() *Disk {
+	d.mu.Lock()
+	defer d.mu.Unlock()
 	n := New()
 	for k, v := range d.m {
 		n.m[k] = v
@@ -132,6 +150,8 @@ func (d *Disk) BoundaryOps(k int) []Op { return d.log[k] }
 
 // Keys returns all keys, sorted.
 func (d *Disk) Keys() []string {
+	d.mu.Lock()
+	defer d.mu.Unlock()
 	keys := make([]string, 0, len(d.m))
 	for k := range d.m {
 		keys = append(keys, k)
@@ -141,20 +161,29 @@ func (d *Disk) Keys() []string {
 }
 
 // Raw returns the stored value without copy or fault (harness use only).
-func (d *Disk) Raw(key string) ([]byte, bool) { v, ok := d.m[key]; return v, ok }
+func (d *Disk) Raw(key string) ([]byte, bool) {
+	d.mu.Lock()
+	defer d.mu.Unlock()
+	v, ok := d.m[key]
+	return v, ok
+}
 
 // SetRaw stores without creating a boundary (harness fault injection).
-func (d *Disk) SetRaw(key string, val []byte) { d.m[key] = val }
+func (d *Disk) SetRaw(key string, val []byte) {
+	d.mu.Lock()
+	defer d.mu.Unlock()
+	d.m[key] = val
+}
 
 type batch struct {
 	d   *Disk
 	ops []Op
 }
 
-func (d *Disk) NewBatch() dbm.Batch       { return &batch{d: d} }
-func (b *batch) Set(key, value []byte)    { b.ops = append(b.ops, Op{Key: string(key), Val: cp(value)}) }
-func (b *batch) Delete(key []byte)        { b.ops = append(b.ops, Op{Del: true, Key: string(key)}) }
-func (b *batch) Write()                   { b.d.apply(b.ops) }
+func (d *Disk) NewBatch() dbm.Batch    { return &batch{d: d} }
+func (b *batch) Set(key, value []byte) { b.ops = append(b.ops, Op{Key: string(key), Val: cp(value)}) }
+func (b *batch) Delete(key []byte)     { b.ops = append(b.ops, Op{Del: true, Key: string(key)}) }
+func (b *batch) Write()                { b.d.apply(b.ops) }
 
 // iter is a snapshot iterator over the keys of a prefix, like goleveldb's.
 type iter struct {
@@ -166,6 +195,8 @@ type iter struct {
 }
 
 func (d *Disk) newIter(prefix []byte) *iter {
+	d.mu.Lock()
+	defer d.mu.Unlock()
 	it := &iter{d: d, pos: -1}
 	p := string(prefix)
 	for k := range d.m {
@@ -181,7 +212,7 @@ func (d *Disk) newIter(prefix []byte) *iter {
 	return it
 }
 
-func (d *Disk) Iterator() dbm.Iterator                   { return d.newIter(nil) }
+func (d *Disk) Iterator() dbm.Iterator                    { return d.newIter(nil) }
 func (d *Disk) IteratorPrefix(prefix []byte) dbm.Iterator { return d.newIter(prefix) }
 func (d *Disk) IteratorPrefixWithStart(prefix, start []byte, isReverse bool) dbm.Iterator {
 	it := d.newIter(prefix)
@@ -237,6 +268,8 @@ func (it *iter) Value() []byte {
 	if !it.valid() {
 		return []byte{}
 	}
+	it.d.mu.Lock()
+	defer it.d.mu.Unlock()
 	it.d.Reads++
 	return it.d.out(it.keys[it.pos], it.vals[it.pos])
 }
